@@ -187,6 +187,12 @@ func cvConvert(toks []string, withStart bool, shared *trackaddict.Session) (stri
 		off, _ := strconv.Atoi(z)
 		old := time.Local
 		time.Local = time.FixedZone("verif", off)
+		if z == "L" {
+			// a zone with daylight saving changes (the shift is an amount of time, not of calendar days)
+			if l, err := time.LoadLocation("Europe/London"); err == nil {
+				time.Local = l
+			}
+		}
 		defer func() { time.Local = old }()
 	}
 	sess := shared
@@ -578,6 +584,12 @@ func genCV(cfg *config, r *rng, i int, s *sink) string {
 		s.count("cv.op.pred." + pk)
 		return fmt.Sprintf("pred PR=%s X=%s", pk, hexStr(text))
 	}
+	dst := r.chance(1, 10)
+	if dst {
+		// a session on the eve of a clock change in Europe/London (27 March, 30 October 2022)
+		base = pick(r, []int64{1648288800, 1648328400, 1667080800, 1667084400}) + int64(r.intn(3000))
+		s.count("cv.dst")
+	}
 	text, oracle := cvLog(r, s, maxLaps, maxRows, withOBD, base)
 	sd := "-"
 	op := "conv"
@@ -610,9 +622,15 @@ func genCV(cfg *config, r *rng, i int, s *sink) string {
 	s.count(fmt.Sprintf("cv.warm.%d", warm))
 	s.count("cv.op." + op)
 	s.count("cv.pred." + pr)
-	zone := pick(r, []int{0, 0, 7200, -28800, 19800, 50400, -43200, 3600})
-	s.count(fmt.Sprintf("cv.zone.%d", zone))
-	return fmt.Sprintf("%s Z=%d W=%d S=%s SL=%s T=%s V=%s G=%s N=%s DS=%d PF=%d SD=%s PR=%s O=%s X=%s", op, zone, warm, share, sl,
+	zone := fmt.Sprint(pick(r, []int{0, 0, 7200, -28800, 19800, 50400, -43200, 3600}))
+	if dst {
+		zone = "L"
+		if sd != "-" {
+			sd = fmt.Sprint(base - base%86400 + 86400*int64(pick(r, []int{1, 2, 3})))
+		}
+	}
+	s.count("cv.zone." + zone)
+	return fmt.Sprintf("%s Z=%s W=%d S=%s SL=%s T=%s V=%s G=%s N=%s DS=%d PF=%d SD=%s PR=%s O=%s X=%s", op, zone, warm, share, sl,
 		hexStr(pick(r, []string{"Goodwood", "", "Brands <Hatch>"})), hexStr(pick(r, []string{"", "", "'19 McLaren 720s"})),
 		hexTags(r), hexStr(pick(r, []string{"", "a note", "line1\nline2"})), r.intn(4), r.intn(5), sd, pr, oracle, hexStr(text))
 }
